@@ -1,10 +1,18 @@
 import inspect
+import sys
 import typing
 
 from .deferred import Deferred, SizedDeferred, wait
 from . import operators
 from . import reports
 from .types import CodeBlock
+
+
+# Diagnostics print the offending values, which may be arbitrarily large
+# (e.g. '1 _ 40000'); Python 3.11+ refuses to print integers of more than 4300
+# digits unless told otherwise
+if hasattr(sys, "set_int_max_str_digits"):  # pragma: no cover
+    sys.set_int_max_str_digits(0)
 
 
 uint = typing.NewType("uint", int)
